@@ -969,7 +969,7 @@ def dict_method(I, recv, name, args, kw):
         raise Unsupported(f"dict.{name} on the pre-state")
     cell = I.path.cell(recv)
     if isinstance(cell, MapCell):
-        return map_method(I, cell, name, args, kw)
+        return map_method(I, cell, name, args, kw, recv)
     d = cell.d
     if name == "get":
         key = I.dict_key(cell, args[0])
@@ -1013,10 +1013,13 @@ def dict_method(I, recv, name, args, kw):
     raise Unsupported(f"dict method {name}")
 
 
-def map_method(I, cell, name, args, kw):
+def map_method(I, cell, name, args, kw, recv_ref=None):
     if name == "get":
         k = I.map_key(cell, args[0])
         if I.path.decide(z3.Select(cell.dom, k)):
+            if cell.vkind == "ref":
+                from .values import MapElem
+                return MapElem(recv_ref, z3.simplify(k))       # the object stored under this key
             return I.map_value(cell, z3.Select(cell.val, k))
         return args[1] if len(args) > 1 else None
     if name == "clear":
